@@ -17,7 +17,7 @@ RULE = ("exhaustive: 1..4 caches x every hit/miss assignment per cache (multi-ke
         "to and including the first that answers, none after it; result is that cache's answer (all-miss: a "
         "miss-shaped value); a write is exactly one call on cache 0 carrying the caller's arguments (real back-end: "
         "the command received by server 0 equals the one a plain Client sends; other servers receive nothing). "
-        "Hit values include falsy ones (b'', 0, '', False, [], {}) and tuples shaped like another read's miss ((None, x), (None, None), ()): a hit is a hit whatever its value. Long key lists (2 ... 2049 keys, thorough to 10001, as list and tuple; the primary holding a single key at the start / middle / end / position 1024 / 1400, or nothing, or everything) go through the same oracle: every consulted cache is asked once, for exactly the caller's keys. Non-trivial: >=2 caches and the first hit is not in cache 0, or a hit carries a falsy value, or a write.")
+        "Hit values include falsy ones (b'', 0, '', False, [], {}) and tuples shaped like another read's miss ((None, x), (None, None), ()): a hit is a hit whatever its value. Used again after close(): one to three close() calls (each closes every cache once, in any order) with reads and writes judged before and after each. Long key lists (2 ... 2049 keys, thorough to 10001, as list and tuple; the primary holding a single key at the start / middle / end / position 1024 / 1400, or nothing, or everything) go through the same oracle: every consulted cache is asked once, for exactly the caller's keys. Non-trivial: >=2 caches and the first hit is not in cache 0, or a hit carries a falsy value, or a write.")
 MANIFEST = {
     "category": "exploration",
     "technique": "bounded-exhaustive enumeration of cache states and operations against a call-log oracle (scripted caches) and a differential oracle (real Clients over a fake network vs. a plain Client)",
@@ -398,6 +398,54 @@ def check_write(case):
     return True, ["write", op, "n=%d" % n]
 
 
+# ---- the object is used again after close() -------------------------------------------------------------------------
+
+def after_close_cases(tier, seed):
+    for n in (2, 3, 4):
+        for st_ in itertools.product([(), (K1,), (K1, K2)], repeat=n):
+            if not any(st_):
+                continue
+            for closes in (1, 2, 3):
+                yield (st_, closes)
+
+
+def check_after_close(case):
+    """close() closes every cache once and changes nothing else: afterwards reads consult the caches in the configured order
+    and writes go to the first one, exactly as before (a Client re-opens its connection on the next call)"""
+    states, closes = case
+    n = len(states)
+    log = []
+    caches = [Scripted(i, set(s_), log) for i, s_ in enumerate(states)]
+    fc = FallbackClient(caches)
+    desc = "cache states %r, %d close() call(s)" % (states, closes)
+
+    def judge(when):
+        del log[:]
+        r = fc.get(K1)
+        ans = next((i for i, s_ in enumerate(states) if K1 in s_), None)
+        if [i for i, _n, _b in log] != list(range(n if ans is None else ans + 1)) or r != (None if ans is None else caches[ans]._val(K1)):
+            raise Violation(["after-close", "read", when], "%s: get consulted caches %r and returned %r (first hit is in cache %r): %s" % (when, [i for i, _n, _b in log], r, ans, desc))
+        del log[:]
+        rm = fc.get_many([K1, K2])
+        ansm = next((i for i, s_ in enumerate(states) if s_), None)
+        if [i for i, _n, _b in log] != list(range(n if ansm is None else ansm + 1)) or rm != {k: caches[ansm]._val(k) for k in (K1, K2) if k in states[ansm]}:
+            raise Violation(["after-close", "read-many", when], "%s: get_many consulted caches %r and returned %r (first answer is cache %r): %s" % (when, [i for i, _n, _b in log], rm, ansm, desc))
+        for opn, args in (("set", (K1, b"v")), ("delete", (K2,)), ("incr", (K1, 1)), ("touch", (K1, 5))):
+            del log[:]
+            getattr(fc, opn)(*args)
+            if [(i, nm) for i, nm, _b in log] != [(0, opn)]:
+                raise Violation(["after-close", "write", when], "%s: %s produced calls %r, expected exactly one on cache 0: %s" % (when, opn, [(i, nm) for i, nm, _b in log], desc))
+    judge("before close()")
+    for c_ in range(closes):
+        del log[:]
+        fc.close()
+        closed = sorted(i for i, nm, _b in log if nm == "close")
+        if closed != list(range(n)) or any(nm != "close" for _i, nm, _b in log):
+            raise Violation(["after-close", "close-calls"], "close() number %d produced calls %r, expected one close per cache: %s" % (c_ + 1, [(i, nm) for i, nm, _b in log], desc))
+        judge("after close() number %d" % (c_ + 1))
+    return True, ["after-close", "n=%d" % n, "closes=%d" % closes]
+
+
 def reconfig_cases(tier, seed):
     for how in ("insert-front", "reassign", "reverse", "pop-front", "append"):
         for op in list(WRITE_SIG) + ["get", "gets", "get_many", "gets_many"]:
@@ -578,6 +626,7 @@ PARTS = [
     Part("writes-scripted", "enum", check_write, cases=write_cases, shards={"quick": 2, "thorough": 2}, exhaustive=True),
     Part("reads-key-kinds-and-shapes", "enum", check_key_shapes, cases=key_shape_cases, shards={"quick": 2, "thorough": 2}, exhaustive=True),
     Part("reads-long-key-lists", "enum", check_read_long, cases=long_read_cases, shards={"quick": 4, "thorough": 8}, exhaustive=True),
+    Part("used-again-after-close", "enum", check_after_close, cases=after_close_cases, shards={"quick": 2, "thorough": 2}, exhaustive=True),
     Part("reconfigured-cache-list", "enum", check_reconfig, cases=reconfig_cases, shards={"quick": 1, "thorough": 1}, exhaustive=True),
     Part("returned-containers", "enum", check_fresh_container, cases=fresh_container_cases, shards={"quick": 1, "thorough": 1}, exhaustive=True),
     Part("reads-real", "enum", check_read_real, cases=read_real_cases, shards={"quick": 4, "thorough": 4}, exhaustive=True),
